@@ -64,6 +64,7 @@ func runC14(p *core.Program, r *core.Report) {
 	c14OfferPure(p, r)
 	r.Rule("C14.estimate-pure", "Cardinality() is a function of the registers: it (and the helpers it calls on the counter) assigns no field of the counter, so no estimate survives a later change of the registers", 1)
 	c14EstimatePure(p, r)
+	c14RegisterOnly(p, r)
 	r.Rule("C14.self-merge", "merging a counter with itself comes back (idempotence in its in-place form): no method holds the non-re-entrant lock of its receiver while taking the same lock of another operand of its type without an identity test first", 0)
 	selfLockRule(p, r, "C14.self-merge", []string{"util/hll"})
 	r.Rule("C14.args", "no call passes two same-typed variables in each other's parameter position (precision and register count are both uint32)", 0)
@@ -1680,5 +1681,104 @@ func c14OfferUpdate(p *core.Program, r *core.Report) {
 			}
 		}
 		fileProbs(r, "C14.offer-update", c, pos, uniq(probs), fmt.Sprintf("%d path(s), each through UpdateIfGreater", len(ps)))
+	}
+}
+
+// c14RegisterOnly: whether a register changes is decided by the register and the offered rank alone
+// (that is what makes the state a function of the set offered, whatever the order). The register set
+// keeps no second piece of mutable state that its update consults: no method of RegisterSet that
+// stores into the register words reads a field of the set that some method (outside the constructors)
+// writes, other than the words themselves.
+func c14RegisterOnly(p *core.Program, r *core.Report) {
+	t := namedIn(p, "util/hll", "RegisterSet")
+	if t == nil {
+		return
+	}
+	st, ok := t.Underlying().(*types.Struct)
+	if !ok {
+		return
+	}
+	words := ""
+	for i := 0; i < st.NumFields(); i++ {
+		if sl, ok := st.Field(i).Type().Underlying().(*types.Slice); ok {
+			if b, ok := sl.Elem().Underlying().(*types.Basic); ok && b.Info()&types.IsInteger != 0 {
+				words = st.Field(i).Name()
+			}
+		}
+	}
+	if words == "" {
+		return
+	}
+	written := map[string]string{}
+	type use struct {
+		fi     *core.FuncInfo
+		reads  map[string]bool
+		stores bool
+	}
+	var uses []use
+	for _, fi := range p.MethodsOf(t) {
+		if fi.Decl.Body == nil {
+			continue
+		}
+		rn := recvName(fi)
+		u := use{fi: fi, reads: map[string]bool{}}
+		lhs := map[*ast.SelectorExpr]bool{}
+		fieldOf := func(e ast.Expr) (*ast.SelectorExpr, bool) {
+			for {
+				switch v := ast.Unparen(e).(type) {
+				case *ast.IndexExpr:
+					e = v.X
+					continue
+				case *ast.SelectorExpr:
+					if id, ok := ast.Unparen(v.X).(*ast.Ident); ok && id.Name == rn {
+						return v, true
+					}
+				}
+				return nil, false
+			}
+		}
+		ast.Inspect(fi.Decl.Body, func(n ast.Node) bool {
+			var targets []ast.Expr
+			switch v := n.(type) {
+			case *ast.AssignStmt:
+				targets = v.Lhs
+			case *ast.IncDecStmt:
+				targets = []ast.Expr{v.X}
+			}
+			for _, l := range targets {
+				if sel, ok := fieldOf(l); ok {
+					lhs[sel] = true
+					if sel.Sel.Name == words {
+						u.stores = true
+					} else {
+						written[sel.Sel.Name] = core.FuncName(fi.Obj)
+					}
+				}
+			}
+			return true
+		})
+		ast.Inspect(fi.Decl.Body, func(n ast.Node) bool {
+			if sel, ok := n.(*ast.SelectorExpr); ok && !lhs[sel] {
+				if id, ok := ast.Unparen(sel.X).(*ast.Ident); ok && id.Name == rn {
+					if _, isField := fi.Pkg.TypesInfo.Uses[sel.Sel].(*types.Var); isField {
+						u.reads[sel.Sel.Name] = true
+					}
+				}
+			}
+			return true
+		})
+		uses = append(uses, u)
+	}
+	for _, u := range uses {
+		if !u.stores {
+			continue
+		}
+		bad := ""
+		for f := range u.reads {
+			if w, ok := written[f]; ok && f != words {
+				bad = "consults the field `" + f + "`, which " + w + " changes as offers come in: whether a register is raised then depends on the history of offers, not only on the register and the rank (the state is no longer a function of the set offered; merging two halves differs from offering the union)"
+			}
+		}
+		r.Check(bad == "", "C14.max", core.FuncName(u.fi.Obj)+" decides by the register alone", p.Pos(u.fi.Decl.Pos()), "reads no mutable state of the set beside the register words", bad)
 	}
 }
